@@ -178,6 +178,34 @@ func genC18(ctx *Ctx) {
 		ctx.Count("expression")
 		ctx.Input(sx.L(sx.I(2), exprInput(text, sx.L(), t), existing, c18Uppers(text, existing)), len(vs) >= 2)
 	}
+	// scale: expressions over 17 .. 130 distinct variables and functions, each written in two letter cases, with a few
+	// pre-existing default variables
+	for _, n := range []int{17, 33, 70, 130} {
+		var parts []string
+		var root *Tree
+		for i := 0; i < n; i++ {
+			nm := fmt.Sprintf("var%d", i)
+			var leaf *Tree
+			if i%9 == 8 {
+				leaf = &Tree{Kind: "call", Text: fmt.Sprintf("fn%d", i), Args: []*Tree{{Kind: "var", Text: strings.ToUpper(nm)}}}
+			} else {
+				leaf = &Tree{Kind: "var", Text: nm}
+			}
+			again := &Tree{Kind: "var", Text: strings.ToUpper(nm)}
+			pair := &Tree{Kind: "bin", Op: "*", Args: []*Tree{leaf, again}}
+			if root == nil {
+				root = pair
+			} else {
+				root = &Tree{Kind: "bin", Op: "+", Args: []*Tree{root, pair}}
+			}
+			parts = append(parts, nm)
+		}
+		p := &printer{rnd: ctx.Rnd, parens: 0}
+		text := p.at(root, 0)
+		existing := sx.List{sx.L(sx.S("VAR3"), sx.N(4)), sx.L(sx.S(fmt.Sprintf("Var%d", n-1)), sx.N(5)), sx.L(sx.S("zz"), sx.N(6))}
+		ctx.Count("scale-expression")
+		ctx.Input(sx.L(sx.I(2), exprInput(text, sx.L(), root), existing, c18Uppers(text, existing)), true)
+	}
 	// every operator that is spelled as a word, in three random letter cases: the word is never taken for a variable
 	for rep := 0; rep < 3; rep++ {
 		mkv := func(n string) *Tree { return &Tree{Kind: "var", Text: n} }
